@@ -630,8 +630,9 @@ class ReferenceListColumn(BaseReferenceColumn):
           if not isinstance(parsed, list):
             return value
 
-          # All of them must be positive integers
-          if all(isinstance(v, int) and v > 0 for v in parsed):
+          # All of them must be positive integers that can be row ids (as ReferenceList.do_convert
+          # requires; text it rejected, which is stored as alttext, must not become a list here).
+          if all(isinstance(v, int) and v > 0 and objtypes.is_int_short(v) for v in parsed):
             return parsed
         else:
           # Else try to parse it as a RecordList
